@@ -12,11 +12,11 @@ PROP = {'counts': {'quick': 150, 'thorough': 5000},
          'survives elsewhere, every Get after reopen = latest write; non-trivial = at least one executed '
          'compaction whose inputs hold two versions of a key or a deletion marker, followed by a reopen; '
          'distinct by case text',
- 'assumptions': ['background flush goroutine parked at a verifhook gate; CompactionInterval 3600 s except in '
+ 'assumptions': ['the model describes the REPAIRED compaction code (/repo deebfc9, cf3362d, ca9115b, 390f6e5, f30cabd); the pre-fix model and its witnesses live in coq/CompactionBefore*.v',
+                 'background flush goroutine parked at a verifhook gate; CompactionInterval 3600 s except in '
                  "the 'auto' operation; file sizes (os.Stat) and the tombstone tracker's 24 h wall-clock "
                  'retention are inputs/abstracted',
-                 'log retirement = removing, while the database is closed, exactly the log files recorded '
-                 'right after a full flush (all of whose entries are in SSTables)'],
- 'partial': "the tracker's wall-clock retention is not modelled (every tracked key counts as recent); keys "
-            "are non-empty (an SSTable holding the empty key reads back as empty: C11's subject); level < 10 "
-            'and file numbers < 10^6 (name order = numeric order)'}
+                 'log retirement = wal.ManageRetention (MaxFileCount) on the engine\'s WAL before the close, removing exactly the '
+                 'log files recorded right after a full flush (all of whose entries are in SSTables)'],
+ 'partial': "the tracker's wall-clock retention is not modelled (every tracked key counts as recent); "
+            "level < 10 and file numbers < 10^6 (name order = numeric order)"}
